@@ -41,9 +41,13 @@ for id_ in ids:
             eng = "nodediff (corpus replay)"
         if m and "-lean" in m.group(1):
             eng = "Lean obligation"
+        if m and "-regenerated-" in m.group(1):
+            eng = "regenerated theorem (go/astfacts) + livestress replay" if not viol.endswith("no-failing-input-found") else "regenerated theorem (go/astfacts)"
+        if not eng and any("scenario" in l for l in out):
+            eng = "scenario"
     key = "" if tier == "quick" else "_" + tier
     meta["check" + key] = f"./check {meta['property']} --tier {tier} (VERIF_SEED={os.environ.get('VERIF_SEED', '1')})"
-    meta["caught_by" + key] = (eng + " engine") if viol else "NOT caught"
+    meta["caught_by" + key] = (eng + ("" if "regenerated" in eng else " engine")) if viol else "NOT caught"
     txt = re.sub(r"^check C\d\d: ", "", chk)[:200]
     meta["reported" + key] = ("check passed" if not viol else
                               ("correspondence break, no-failing-input-found: " if viol.endswith("no-failing-input-found") else "failing input: ") + txt)
